@@ -61,14 +61,14 @@ def corpus_files(seed, n):
 
 
 def build_corpus(seed, tier):
-    ndet, npy, nsyn, ncorp = (8, 3, 3, 10) if tier == "quick" else (80, 30, 30, 160)
+    ndet, npy, nsyn, ncorp = (6, 2, 2, 6) if tier == "quick" else (80, 30, 30, 160)
     if os.environ.get("VERIF_C42_SIZE"):        # development aid only
         ndet, npy, nsyn, ncorp = [int(x) for x in os.environ["VERIF_C42_SIZE"].split(",")]
     mods = []
     for i, m in enumerate(detmods.draw_modules(ndet, seed, ("c42det", tier), "d")):
         mods.append({"name": "det_%03d.pyx" % i, "src": m["src"], "kind": "detmods"})
     for i in range(npy):
-        items = pyprog.draw_items(16, seed, ("c42py", tier, i), "p%d" % i)
+        items = pyprog.draw_items(10 if tier == "quick" else 16, seed, ("c42py", tier, i), "p%d" % i)
         mods.append({"name": "pyp_%03d.py" % i, "src": pyprog.HEADER + "\n\n" + "\n\n".join(it["src"] for it in items) + "\n",
                      "kind": "pyprog"})
     progs = hyp.draw_many(synprog.program("UID"), nsyn * 5 + 1, seed, "c42syn", tier)[1:]
@@ -90,14 +90,15 @@ def support_files():
 # ----------------------------------------------------------------------------------------------
 # cells
 
-def cell_specs(seed, group_index, n):
+def cell_specs(seed, group_index, n, tier="thorough"):
     """[(cell name, family, cfg)]; the first of each family is the baseline."""
     hs = [1, 2, 3, 42, hyp.derive(seed, "c42hs", group_index) % (2 ** 32)]
     perm = hyp.draw_many(st.permutations(list(range(n))), 2, seed, "c42perm", group_index)[-1]
     return [
         ("c0", "compile", {"hashseed": 0, "order": list(range(n)), "sub": "a"}),
         ("c1-hashseed+reversed", "compile", {"hashseed": hs[group_index % 2], "order": list(range(n))[::-1], "sub": "a"}),
-        ("c2-hashseed+permuted+dir+malloc", "compile", {"hashseed": hs[4] if group_index % 2 else hs[3], "order": list(perm),
+        ("c2-hashseed+permuted+dir+malloc", "compile", {"hashseed": hs[4] if group_index % 2 else hs[3],
+                                                         "order": list(perm) if tier != "quick" else list(perm)[:(n + 1) // 2],
                                                   "sub": "deeper/nested/dir", "malloc": True}),
         ("c3-fresh-process+malloc", "compile", {"hashseed": hs[2], "order": [perm[0], perm[-1]] if n > 1 else [0], "sub": "a",
                                          "isolated": True, "malloc": True}),
@@ -211,7 +212,7 @@ def run(ctx):
     jobs = []
     specs = {}
     for gi, g in enumerate(groups):
-        specs[gi] = cell_specs(ctx.seed, gi, len(g))
+        specs[gi] = cell_specs(ctx.seed, gi, len(g), ctx.tier)
         for cname, family, cfg in specs[gi]:
             jobs.append((ctx.work, gi, cname, family, cfg, g))
     results = {}
@@ -277,9 +278,9 @@ def run(ctx):
     ctx.counters["modules"] = len(mods)
     ctx.counters["groups"] = len(groups)
     ctx.rule = ("corpus = Hypothesis-generated detmods .pyx modules (names, constants, cdef classes, fused functions, closures, cimports), "
-                "pyprog batches (16 functions), synprog batches (5 programs) and a seeded sample of tests/run files, shuffled into groups "
+                "pyprog batches (10/16 functions), synprog batches (5 programs) and a seeded sample of tests/run files, shuffled into groups "
                 "of 8; each group compiled in cells c0 (Main.compile, hash seed 0), c1 (other hash seed, reversed order, same process), "
-                "c2 (other hash seed, permuted order, other absolute dir, PYTHONMALLOC=malloc), c3 (two modules, one fresh process image each, PYTHONMALLOC=malloc), z0 "
+                "c2 (other hash seed, permuted order [quick: first half of the permutation], other absolute dir, PYTHONMALLOC=malloc), c3 (two modules, one fresh process image each, PYTHONMALLOC=malloc), z0 "
                 "(cythonize nthreads=0, hash seed 0), z1 (cythonize nthreads=4, other hash seed, reversed list); one evaluation per "
                 "(module, non-baseline cell) comparing status and bytes of all generated files with the family baseline. non-trivial = "
                 "module compiles and has >= 20 distinct interned/constant cnames in its C file or >= 2 classes; distinct by "
